@@ -90,7 +90,8 @@ impl<T> Window<T> {
 	/// # Panics
 	///
 	/// This method will panic if length of the slice is greater or equal to [`PeriodType::MAX`].
-	/// This method will also panic if provided `index` is greater or equal to slice's length.
+	/// This method will also panic if provided `index` is greater or equal to slice's length
+	/// (an empty slice with zero `index` produces an empty `Window`).
 	///
 	/// [`PeriodType::MAX`]: crate::core::PeriodType
 	#[must_use]
@@ -102,7 +103,7 @@ impl<T> Window<T> {
 			"The length of the slice is too large"
 		);
 		assert!(
-			slice.len() > index as usize,
+			slice.len() > index as usize || (slice.is_empty() && index == 0),
 			"Index is out of slice's range"
 		);
 
@@ -519,7 +520,7 @@ where
 			return Err(error);
 		}
 
-		if (buf.len() as PeriodType) <= index {
+		if (buf.len() as PeriodType) <= index && !(buf.is_empty() && index == 0) {
 			let error =
 				SerdeError::custom(format!("Index {index} is out of window's buffer bounds."));
 			return Err(error);
